@@ -199,6 +199,8 @@ unknown_field:
 				goto unknown_field;
 			if (itr->_ftype != FieldTrait::ft_data) // next field must be data
 				break;
+			if (itr->_field_traits.has(FieldTrait::present))	// the data field was already decoded before its Length field came
+				throw DuplicateField(tv);
 			s_offset += result;
 		}
 	}
